@@ -173,11 +173,11 @@ theorem parseLen_classified (s : Bytes) :
 
 /-! ### `read_pkt_line` over any reader that hands out consecutive stream bytes -/
 
-/-- What the framing theorems need from a transport reader: `rd n` returns the next
-`min n (remaining)` bytes of the stream `abs s` (blocking read), for `n > 0` — and for `n = 0`
-too when `zeroOk`. -/
-def ReadSpec {τ : Type} (rd : Reader τ) (abs : τ → Bytes) (Valid : τ → Prop) (zeroOk : Prop) : Prop :=
-  ∀ n s, Valid s → (0 < n ∨ zeroOk) →
+/-- What the framing theorems need from a transport reader: for `n > 0`, `rd n` returns the next
+`min n (remaining)` bytes of the stream `abs s` (blocking read).  (`read_pkt_line` never asks
+for zero bytes.) -/
+def ReadSpec {τ : Type} (rd : Reader τ) (abs : τ → Bytes) (Valid : τ → Prop) : Prop :=
+  ∀ n s, Valid s → 0 < n →
     ∃ out s', rd n s = some (out, s') ∧ out ++ abs s' = abs s ∧ out.length = min n (abs s).length ∧ Valid s'
 
 /-- the payload fits the four-digit length field -/
@@ -185,15 +185,74 @@ def Fits : Pkt → Prop
   | none => True
   | some d => d.length + 4 < 65536
 
-theorem pktLine_flush : pktLine none = [48, 48, 48, 48] := by decide
+theorem frame_flush : frame none = [48, 48, 48, 48] := by decide
 
 theorem parseLen_flush : parseLen [48, 48, 48, 48] = .ok 0 := by decide
 
-theorem pktLine_data (d : Bytes) : pktLine (some d) = fmtHex 4 (d.length + 4) ++ d := rfl
+theorem frame_data (d : Bytes) : frame (some d) = fmtHex 4 (d.length + 4) ++ d := rfl
 
-theorem readCore_frame {τ : Type} {rd : Reader τ} {abs : τ → Bytes} {Valid : τ → Prop} {z : Prop}
-    (hrd : ReadSpec rd abs Valid z) (s : τ) (x : Pkt) (rest : Bytes) (hv : Valid s)
-    (habs : abs s = pktLine x ++ rest) (hf : Fits x) (hz : z ∨ x ≠ some []) :
+/-- `pkt_line` frames exactly the payloads of at most `MAX_PKT_LINE_DATA_LEN` bytes -/
+theorem pktLine_some (d : Bytes) (h : d.length ≤ 65516) : pktLine (some d) = some (frame (some d)) := by
+  have k : Gen.PktLine.maxDataLen = 65516 := rfl
+  simp only [pktLine, k]
+  rw [if_neg (by omega)]
+
+theorem pktLine_none_iff (d : Bytes) : pktLine (some d) = none ↔ 65516 < d.length := by
+  have k : Gen.PktLine.maxDataLen = 65516 := rfl
+  simp only [pktLine, k]
+  by_cases h : d.length > 65516 <;> simp [h]
+
+theorem pktLine_eq_some {x : Pkt} {f : Bytes} (h : pktLine x = some f) : f = frame x ∧ Fits x := by
+  have k : Gen.PktLine.maxDataLen = 65516 := rfl
+  cases x with
+  | none => simp only [pktLine, Option.some.injEq] at h; exact ⟨h.symm, trivial⟩
+  | some d =>
+    simp only [pktLine, k] at h
+    by_cases hd : d.length > 65516
+    · simp [hd] at h
+    · simp only [hd, if_false, Option.some.injEq] at h
+      exact ⟨h.symm, by show d.length + 4 < 65536; omega⟩
+
+theorem mapM_some_of_forall {α β : Type} (f : α → Option β) (g : α → β) : ∀ (l : List α),
+    (∀ x ∈ l, f x = some (g x)) → l.mapM f = some (l.map g) := by
+  intro l
+  induction l with
+  | nil => intro _; rfl
+  | cons a l ih =>
+    intro h
+    simp only [List.mapM_cons, h a List.mem_cons_self, ih (fun x hx => h x (List.mem_cons_of_mem _ hx))]
+    rfl
+
+/-- what `b"".join(pkt_line(p) for p in ps)` returns when no `pkt_line` call refuses: the frames,
+and every payload fits -/
+theorem wire_eq_some : ∀ (ps : List Pkt) (w : Bytes), wire ps = some w → w = encode ps ∧ ∀ x ∈ ps, Fits x := by
+  intro ps
+  induction ps with
+  | nil => intro w h; simp [wire, encode] at h ⊢; exact h
+  | cons x ps ih =>
+    intro w h
+    simp only [wire, List.mapM_cons, Option.map_eq_some_iff] at h
+    obtain ⟨fs, hfs, rfl⟩ := h
+    cases hx : pktLine x with
+    | none => simp [hx] at hfs
+    | some f =>
+      cases hr : ps.mapM pktLine with
+      | none => simp [hx, hr] at hfs
+      | some fr =>
+        simp [hx, hr] at hfs
+        subst hfs
+        obtain ⟨e1, f1⟩ := pktLine_eq_some hx
+        obtain ⟨e2, f2⟩ := ih fr.flatten (by simp [wire, hr])
+        refine ⟨by simp [encode, e1] at e2 ⊢; exact e2, ?_⟩
+        intro y hy
+        simp only [List.mem_cons] at hy
+        rcases hy with rfl | hy
+        · exact f1
+        · exact f2 y hy
+
+theorem readCore_frame {τ : Type} {rd : Reader τ} {abs : τ → Bytes} {Valid : τ → Prop}
+    (hrd : ReadSpec rd abs Valid) (s : τ) (x : Pkt) (rest : Bytes) (hv : Valid s)
+    (habs : abs s = frame x ++ rest) (hf : Fits x) :
     ∃ s', readCore rd s = .pkt x s' ∧ abs s' = rest ∧ Valid s' := by
   have c1 : Gen.PktLine.rdPrefix = 4 := rfl
   have c2 : Gen.PktLine.rdFlush = 0 := rfl
@@ -201,10 +260,11 @@ theorem readCore_frame {τ : Type} {rd : Reader τ} {abs : τ → Bytes} {Valid 
   have c4 : Gen.PktLine.rdMin = 4 := rfl
   have c5 : Gen.PktLine.rdHdr = 4 := rfl
   have c6 : Gen.PktLine.rdChk = 4 := rfl
+  have c7 : Gen.PktLine.rdEmpty = 4 := rfl
   cases x with
   | none =>
-    obtain ⟨out, s1, h1, h2, h3, h4⟩ := hrd 4 s hv (Or.inl (by omega))
-    rw [habs, pktLine_flush] at h2 h3
+    obtain ⟨out, s1, h1, h2, h3, h4⟩ := hrd 4 s hv (by omega)
+    rw [habs, frame_flush] at h2 h3
     have hsplit := List.append_inj h2 (by simp at h3 ⊢; omega)
     refine ⟨s1, ?_, hsplit.2, h4⟩
     unfold readCore
@@ -213,35 +273,38 @@ theorem readCore_frame {τ : Type} {rd : Reader τ} {abs : τ → Bytes} {Valid 
   | some d =>
     have hfit : d.length + 4 < 65536 := hf
     have hpl := fmtHex_length (d.length + 4) hfit
-    obtain ⟨out, s1, h1, h2, h3, h4⟩ := hrd 4 s hv (Or.inl (by omega))
-    rw [habs, pktLine_data, List.append_assoc] at h2 h3
+    obtain ⟨out, s1, h1, h2, h3, h4⟩ := hrd 4 s hv (by omega)
+    rw [habs, frame_data, List.append_assoc] at h2 h3
     have hsplit := List.append_inj h2 (by simp only [List.length_append] at h3; omega)
-    have hd0 : 0 < d.length ∨ z := by
-      rcases hz with hz | hz
-      · exact Or.inr hz
-      · left
-        cases d with
-        | nil => exact absurd rfl hz
-        | cons _ _ => simp
-    obtain ⟨body, s2, g1, g2, g3, g4⟩ := hrd d.length s1 h4 hd0
-    rw [hsplit.2] at g2 g3
-    have hsplit2 := List.append_inj g2 (by simp only [List.length_append] at g3; omega)
-    refine ⟨s2, ?_, hsplit2.2, g4⟩
-    unfold readCore
-    rw [c1, h1]
     have hne : fmtHex 4 (d.length + 4) ≠ [] := by
       intro h; rw [h] at hpl; simp at hpl
-    simp only [hsplit.1, hne, if_false, parseLen_fmtHex _ hfit, c2, c3, c4, c5, c6]
     have n1 : ¬ (d.length + 4 = 0 ∨ d.length + 4 = 1) := by omega
     have n2 : ¬ (d.length + 4 < 4) := by omega
-    simp only [n1, n2, if_false, Nat.add_sub_cancel, g1, hsplit2.1]
-    simp
+    by_cases hd0 : d.length = 0
+    · -- the empty pkt-line: the transport is not touched
+      have hd : d = [] := List.eq_nil_of_length_eq_zero hd0
+      subst hd
+      refine ⟨s1, ?_, by simpa using hsplit.2, h4⟩
+      unfold readCore
+      rw [c1, h1]
+      simp only [hsplit.1, hne, if_false, parseLen_fmtHex _ hfit, c2, c3, c4, c5, c6, c7]
+      simp
+    · obtain ⟨body, s2, g1, g2, g3, g4⟩ := hrd d.length s1 h4 (by omega)
+      rw [hsplit.2] at g2 g3
+      have hsplit2 := List.append_inj g2 (by simp only [List.length_append] at g3; omega)
+      refine ⟨s2, ?_, hsplit2.2, g4⟩
+      unfold readCore
+      rw [c1, h1]
+      have n3 : d.length + 4 > 4 := by omega
+      simp only [hsplit.1, hne, if_false, parseLen_fmtHex _ hfit, c2, c3, c4, c5, c6, c7]
+      simp only [n1, n2, n3, if_false, if_true, Nat.add_sub_cancel, g1, hsplit2.1]
+      simp
 
-theorem readCore_eof {τ : Type} {rd : Reader τ} {abs : τ → Bytes} {Valid : τ → Prop} {z : Prop}
-    (hrd : ReadSpec rd abs Valid z) (s : τ) (hv : Valid s) (habs : abs s = []) :
+theorem readCore_eof {τ : Type} {rd : Reader τ} {abs : τ → Bytes} {Valid : τ → Prop}
+    (hrd : ReadSpec rd abs Valid) (s : τ) (hv : Valid s) (habs : abs s = []) :
     ∃ s', readCore rd s = .hangup s' := by
   have c1 : Gen.PktLine.rdPrefix = 4 := rfl
-  obtain ⟨out, s1, h1, _, h3, _⟩ := hrd 4 s hv (Or.inl (by omega))
+  obtain ⟨out, s1, h1, _, h3, _⟩ := hrd 4 s hv (by omega)
   rw [habs] at h3
   have : out = [] := by
     cases out with
@@ -252,9 +315,9 @@ theorem readCore_eof {τ : Type} {rd : Reader τ} {abs : τ → Bytes} {Valid : 
   rw [c1, h1]
   simp [this]
 
-theorem readAll_roundtrip {τ : Type} {rd : Reader τ} {abs : τ → Bytes} {Valid : τ → Prop} {z : Prop}
-    (hrd : ReadSpec rd abs Valid z) : ∀ (ps : List Pkt) (fuel : Nat) (s : τ), Valid s →
-    abs s = encode ps → (∀ x ∈ ps, Fits x ∧ (z ∨ x ≠ some [])) → ps.length < fuel →
+theorem readAll_roundtrip {τ : Type} {rd : Reader τ} {abs : τ → Bytes} {Valid : τ → Prop}
+    (hrd : ReadSpec rd abs Valid) : ∀ (ps : List Pkt) (fuel : Nat) (s : τ), Valid s →
+    abs s = encode ps → (∀ x ∈ ps, Fits x) → ps.length < fuel →
     readAll rd fuel ⟨none, s⟩ = (ps, .hangup) := by
   intro ps
   induction ps with
@@ -272,12 +335,12 @@ theorem readAll_roundtrip {τ : Type} {rd : Reader τ} {abs : τ → Bytes} {Val
     | succ f =>
       have hx := hall x (List.mem_cons_self)
       obtain ⟨s', h1, h2, h3⟩ := readCore_frame hrd s x (encode ps) hv
-        (by simpa [encode] using habs) hx.1 hx.2
+        (by simpa [encode] using habs) hx
       simp only [readAll, readPktLine, h1]
       rw [ih f s' h3 h2 (fun y hy => hall y (List.mem_cons_of_mem _ hy)) (by simp at hfuel; omega)]
 
-/-- the plain blocking reader meets the spec, zero-length reads included -/
-theorem bytesRead_spec : ReadSpec bytesRead (fun s => s) (fun _ => True) True := by
+/-- the plain blocking reader meets the spec -/
+theorem bytesRead_spec : ReadSpec bytesRead (fun s => s) (fun _ => True) := by
   intro n s _ _
   refine ⟨s.take n, s.drop n, rfl, List.take_append_drop n s, ?_, trivial⟩
   simp [List.length_take]
@@ -326,9 +389,8 @@ theorem rpFill_spec (size : Nat) : ∀ (src : List Bytes) (buf : Bytes), (∀ c 
           omega
         · exact hcs _ h
 
-theorem rpRead_spec : ReadSpec rpRead RP.stream RPValid False := by
-  intro n st hv hn
-  have hn0 : 0 < n := by rcases hn with h | h; exact h; exact absurd h id
+theorem rpRead_spec : ReadSpec rpRead RP.stream RPValid := by
+  intro n st hv hn0
   unfold rpRead
   have : ¬ n = 0 := by omega
   simp only [this, if_false]
@@ -520,16 +582,16 @@ theorem parse_nil : parse [] = ([], .tail []) := by decide
 
 /-- one well-formed frame at the head of the buffer is handed over as is -/
 theorem parse_frame (x : Pkt) (rest : Bytes) (hf : Fits x) :
-    parse (pktLine x ++ rest) = (x :: (parse rest).1, (parse rest).2) := by
+    parse (frame x ++ rest) = (x :: (parse rest).1, (parse rest).2) := by
   rw [parse_unfold]
   cases x with
   | none =>
-    rw [pktLine_flush]
+    rw [frame_flush]
     simp [parseLen_flush]
   | some d =>
     have hfit : d.length + 4 < 65536 := hf
     have hpl := fmtHex_length (d.length + 4) hfit
-    rw [pktLine_data, List.append_assoc]
+    rw [frame_data, List.append_assoc]
     have hlen : ¬ (fmtHex 4 (d.length + 4) ++ (d ++ rest)).length < 4 := by
       simp only [List.length_append, hpl]; omega
     have htake : (fmtHex 4 (d.length + 4) ++ (d ++ rest)).take 4 = fmtHex 4 (d.length + 4) := by
@@ -559,7 +621,7 @@ theorem parse_encode : ∀ (ps : List Pkt), (∀ x ∈ ps, Fits x) → parse (en
   | nil => intro _; exact parse_nil
   | cons x ps ih =>
     intro h
-    have : encode (x :: ps) = pktLine x ++ encode ps := by simp [encode]
+    have : encode (x :: ps) = frame x ++ encode ps := by simp [encode]
     rw [this, parse_frame x _ (h x List.mem_cons_self), ih (fun y hy => h y (List.mem_cons_of_mem _ hy))]
 
 /-! ### side-band -/
@@ -611,9 +673,9 @@ theorem sidebandDemux_map (ch : UInt8) : ∀ (cs : List Bytes) (rest : List Byte
     cases sidebandDemux rest <;> simp
 
 /-- `read_pkt_seq` over any conforming reader returns the non-empty packets up to the flush-pkt -/
-theorem readPktSeq_roundtrip {τ : Type} {rd : Reader τ} {abs : τ → Bytes} {Valid : τ → Prop} {z : Prop}
-    (hrd : ReadSpec rd abs Valid z) (rest : Bytes) : ∀ (ds : List Bytes) (fuel : Nat) (s : τ), Valid s →
-    abs s = encode (ds.map some) ++ (pktLine none ++ rest) →
+theorem readPktSeq_roundtrip {τ : Type} {rd : Reader τ} {abs : τ → Bytes} {Valid : τ → Prop}
+    (hrd : ReadSpec rd abs Valid) (rest : Bytes) : ∀ (ds : List Bytes) (fuel : Nat) (s : τ), Valid s →
+    abs s = encode (ds.map some) ++ (frame none ++ rest) →
     (∀ d ∈ ds, d ≠ [] ∧ d.length + 4 < 65536) → ds.length < fuel →
     ∃ s', readPktSeq rd fuel ⟨none, s⟩ = (ds, none, ⟨none, s'⟩) ∧ abs s' = rest ∧ Valid s' := by
   intro ds
@@ -624,7 +686,6 @@ theorem readPktSeq_roundtrip {τ : Type} {rd : Reader τ} {abs : τ → Bytes} {
     | zero => simp at hfuel
     | succ f =>
       obtain ⟨s', h1, h2, h3⟩ := readCore_frame hrd s none rest hv (by simpa [encode] using habs) trivial
-        (Or.inr (by simp))
       exact ⟨s', by simp [readPktSeq, readPktLine, h1], h2, h3⟩
   | cons d ds ih =>
     intro fuel s hv habs hall hfuel
@@ -632,8 +693,8 @@ theorem readPktSeq_roundtrip {τ : Type} {rd : Reader τ} {abs : τ → Bytes} {
     | zero => simp at hfuel
     | succ f =>
       have hd := hall d List.mem_cons_self
-      obtain ⟨s1, h1, h2, h3⟩ := readCore_frame hrd s (some d) (encode (ds.map some) ++ (pktLine none ++ rest)) hv
-        (by simpa [encode] using habs) hd.2 (Or.inr (by simpa using hd.1))
+      obtain ⟨s1, h1, h2, h3⟩ := readCore_frame hrd s (some d) (encode (ds.map some) ++ (frame none ++ rest)) hv
+        (by simpa [encode] using habs) hd.2
       obtain ⟨s', g1, g2, g3⟩ := ih f s1 h3 h2 (fun y hy => hall y (List.mem_cons_of_mem _ hy))
         (by simp at hfuel; omega)
       refine ⟨s', ?_, g2, g3⟩
@@ -652,26 +713,34 @@ theorem bwFlush_stream (st : BW) : (bwFlush st).1.flatten = st.wbuf ∧ (bwFlush
   by_cases h : st.wbuf = [] <;> simp [h]
 
 theorem bwWrite_stream (bufsize : Nat) (st : BW) (d : Bytes) :
-    (bwWrite bufsize st d).1.flatten ++ (bwWrite bufsize st d).2.wbuf = st.wbuf ++ pktLine (some d) := by
+    (bwWrite bufsize st d).1.flatten ++ (bwWrite bufsize st d).2.wbuf = st.wbuf ++ frame (some d) := by
   unfold bwWrite
   simp only
   split
   · rename_i h
-    have f := bwFlush_stream ⟨st.wbuf ++ pySliceTo (pktLine (some d)) (↑(pktLine (some d)).length -
-      (↑st.buflen + ↑(pktLine (some d)).length - ↑bufsize)), st.buflen⟩
+    have f := bwFlush_stream ⟨st.wbuf ++ pySliceTo (frame (some d)) (↑(frame (some d)).length -
+      (↑st.buflen + ↑(frame (some d)).length - ↑bufsize)), st.buflen⟩
     simp only [f.1, f.2, List.nil_append, List.append_assoc, pySlice_append]
   · simp
 
-theorem bwRun_stream (bufsize : Nat) : ∀ (ds : List Bytes) (st : BW),
-    (bwRun bufsize st ds).flatten = st.wbuf ++ encode (ds.map some) := by
+theorem bwRun_stream (bufsize : Nat) : ∀ (ds : List Bytes) (st : BW), (∀ d ∈ ds, d.length ≤ 65516) →
+    ∃ outs, bwRun bufsize st ds = some outs ∧ outs.flatten = st.wbuf ++ encode (ds.map some) := by
   intro ds
   induction ds with
-  | nil => intro st; simp [bwRun, encode, (bwFlush_stream st).1]
+  | nil => intro st _; exact ⟨_, rfl, by simp [encode, (bwFlush_stream st).1]⟩
   | cons d ds ih =>
-    intro st
-    simp only [bwRun, List.flatten_append, ih]
-    rw [← List.append_assoc, bwWrite_stream]
-    simp [encode]
+    intro st h
+    obtain ⟨outs, h1, h2⟩ := ih (bwWrite bufsize st d).2 (fun y hy => h y (List.mem_cons_of_mem _ hy))
+    refine ⟨(bwWrite bufsize st d).1 ++ outs, ?_, ?_⟩
+    · simp only [bwRun, pktLine_some d (h d List.mem_cons_self), h1, Option.map_some]
+    · simp only [List.flatten_append, h2]
+      rw [← List.append_assoc, bwWrite_stream]
+      simp [encode]
+
+/-- a write that `pkt_line` refuses aborts the run with the ValueError -/
+theorem bwRun_refuses (bufsize : Nat) (st : BW) (d : Bytes) (ds : List Bytes) (h : 65516 < d.length) :
+    bwRun bufsize st (d :: ds) = none := by
+  simp only [bwRun, (pktLine_none_iff d).mpr h]
 
 /-! ### `PackStreamReader._read` trailer -/
 
@@ -715,11 +784,13 @@ theorem trailerRun_inv (h : Nat) (hh : 0 < h) : ∀ (cs : List Bytes) (st : Trai
 
 /-! ### capability lists -/
 
-theorem rstrip_snoc_ws (s : Bytes) (b : UInt8) (h : isWs b = true) : rstrip (s ++ [b]) = rstrip s := by
-  simp [rstrip, List.reverse_append, h]
+theorem rstrip_snoc_ws (p : UInt8 → Bool) (s : Bytes) (b : UInt8) (h : p b = true) :
+    rstripBy p (s ++ [b]) = rstripBy p s := by
+  simp [rstripBy, List.reverse_append, h]
 
-theorem rstrip_snoc_nonws (s : Bytes) (b : UInt8) (h : isWs b = false) : rstrip (s ++ [b]) = s ++ [b] := by
-  simp [rstrip, List.reverse_append, h]
+theorem rstrip_snoc_nonws (p : UInt8 → Bool) (s : Bytes) (b : UInt8) (h : p b = false) :
+    rstripBy p (s ++ [b]) = s ++ [b] := by
+  simp [rstripBy, List.reverse_append, h]
 
 theorem splitOn_ne_nil (sep : UInt8) : ∀ s : Bytes, splitOn sep s ≠ [] := by
   intro s
@@ -821,15 +892,40 @@ theorem formatCapabilityLine_eq : ∀ (caps : List Bytes), caps ≠ [] →
       rw [this]
       simp
 
-/-- Tokens that the space-separated, `strip()`-ped capability list can carry. -/
-structure CapsWF (caps : List Bytes) : Prop where
-  nosep : ∀ c ∈ caps, (32 : UInt8) ∉ c ∧ (0 : UInt8) ∉ c
-  first : ∃ b r t, caps = (b :: r) :: t ∧ isWs b = false
-  last : ∃ i c b, caps = i ++ [c ++ [b]] ∧ isWs b = false
+/-- Capability tokens: non-empty, without the separator SP, the terminator LF and NUL. -/
+def CapsWF (caps : List Bytes) : Prop :=
+  ∀ c ∈ caps, c ≠ [] ∧ ∀ b ∈ c, b ≠ 32 ∧ b ≠ 10 ∧ b ≠ 0
 
-theorem CapsWF.ne_nil {caps : List Bytes} (h : CapsWF caps) : caps ≠ [] := by
-  obtain ⟨b, r, t, e, _⟩ := h.first
-  rw [e]; simp
+theorem CapsWF.nosep {caps : List Bytes} (h : CapsWF caps) (x : UInt8) (hx : x = 32 ∨ x = 10 ∨ x = 0) :
+    ∀ c ∈ caps, x ∉ c := by
+  intro c hc hm
+  have := (h c hc).2 x hm
+  rcases hx with rfl | rfl | rfl
+  · exact this.1 rfl
+  · exact this.2.1 rfl
+  · exact this.2.2 rfl
+
+theorem isSepLf_false {b : UInt8} (h : b ≠ 32 ∧ b ≠ 10 ∧ b ≠ 0) : isSepLf b = false := by
+  simp [isSepLf, h.1, h.2.1]
+
+theorem CapsWF.first {caps : List Bytes} (h : CapsWF caps) (hne : caps ≠ []) :
+    ∃ b r t, caps = (b :: r) :: t ∧ isSepLf b = false := by
+  cases caps with
+  | nil => exact absurd rfl hne
+  | cons c t =>
+    have hc := h c List.mem_cons_self
+    cases c with
+    | nil => exact absurd rfl hc.1
+    | cons b r => exact ⟨b, r, t, rfl, isSepLf_false (hc.2 b List.mem_cons_self)⟩
+
+theorem CapsWF.last {caps : List Bytes} (h : CapsWF caps) (hne : caps ≠ []) :
+    ∃ i c b, caps = i ++ [c ++ [b]] ∧ isSepLf b = false := by
+  have e := (List.dropLast_concat_getLast hne).symm
+  have hl := h _ (List.getLast_mem hne)
+  have e2 := (List.dropLast_concat_getLast hl.1).symm
+  refine ⟨caps.dropLast, (caps.getLast hne).dropLast, (caps.getLast hne).getLast hl.1, ?_, ?_⟩
+  · rw [← e2]; exact e
+  · exact isSepLf_false (hl.2 _ (List.getLast_mem hl.1))
 
 theorem joinWith_first (sep b : UInt8) (r : Bytes) (t : List Bytes) :
     ∃ J, joinWith sep ((b :: r) :: t) = b :: J := by
@@ -837,19 +933,20 @@ theorem joinWith_first (sep b : UInt8) (r : Bytes) (t : List Bytes) :
   | nil => exact ⟨r, rfl⟩
   | cons q t => exact ⟨r ++ sep :: joinWith sep (q :: t), rfl⟩
 
-theorem strip_capline (caps : List Bytes) (h : CapsWF caps) :
-    strip (32 :: joinWith 32 caps) = joinWith 32 caps := by
-  obtain ⟨i, c, b, e, hb⟩ := h.last
+/-- `strip(b" \n")` of ` c1 c2 … cn\n` is `c1 c2 … cn` -/
+theorem strip_capline (caps : List Bytes) (h : CapsWF caps) (hne : caps ≠ []) :
+    stripBy isSepLf ((32 :: joinWith 32 caps) ++ [10]) = joinWith 32 caps := by
+  obtain ⟨i, c, b, e, hb⟩ := h.last hne
   obtain ⟨X, hX⟩ := joinWith_last 32 i c b
-  obtain ⟨b0, r, t, e0, hb0⟩ := h.first
+  obtain ⟨b0, r, t, e0, hb0⟩ := h.first hne
   obtain ⟨J, hJ⟩ := joinWith_first 32 b0 r t
-  unfold strip
-  have : rstrip (32 :: joinWith 32 caps) = 32 :: joinWith 32 caps := by
-    rw [e, hX, ← List.cons_append, rstrip_snoc_nonws _ _ hb]
+  unfold stripBy
+  have : rstripBy isSepLf ((32 :: joinWith 32 caps) ++ [10]) = 32 :: joinWith 32 caps := by
+    rw [rstrip_snoc_ws _ _ _ (by decide), e, hX, ← List.cons_append, rstrip_snoc_nonws _ _ _ hb]
   rw [this]
-  have w32 : isWs 32 = true := by decide
+  have w32 : isSepLf 32 = true := by decide
   rw [e0, hJ]
-  simp [lstrip, w32, hb0]
+  simp [lstripBy, w32, hb0]
 
 /-! ### side-band: the packets a sequence of writes produces -/
 
@@ -861,14 +958,27 @@ def sbPackets (writes : List (UInt8 × Bytes)) : List Bytes :=
 def sbPairs (writes : List (UInt8 × Bytes)) : List (UInt8 × Bytes) :=
   writes.flatMap (fun w => (sbChunks w.2.length w.2).map (fun c => (w.1, c)))
 
+/-- the frames `write_sideband` writes (it never refuses: `writeSideband_eq`) -/
+def sbFrames (ch : UInt8) (blob : Bytes) : List Bytes :=
+  (sbChunks blob.length blob).map (fun c => frame (some (ch :: c)))
+
+/-- every slice leaves room for the channel byte, so `pkt_line` accepts every frame -/
+theorem writeSideband_eq (ch : UInt8) (blob : Bytes) : writeSideband ch blob = some (sbFrames ch blob) := by
+  have k : Gen.PktLine.sbChunk = 65515 := rfl
+  unfold writeSideband sbFrames
+  apply mapM_some_of_forall
+  intro c hc
+  obtain ⟨_, b2⟩ := sbChunks_bounds _ _ c hc
+  exact pktLine_some _ (by simp only [List.length_cons]; omega)
+
 theorem sideband_wire (writes : List (UInt8 × Bytes)) :
-    (writes.flatMap (fun w => writeSideband w.1 w.2)).flatten = encode ((sbPackets writes).map some) := by
+    (writes.flatMap (fun w => sbFrames w.1 w.2)).flatten = encode ((sbPackets writes).map some) := by
   induction writes with
   | nil => simp [sbPackets, encode]
   | cons w ws ih =>
-    have hw : (writeSideband w.1 w.2).flatten
+    have hw : (sbFrames w.1 w.2).flatten
         = encode (((sbChunks w.2.length w.2).map (w.1 :: ·)).map some) := by
-      simp [writeSideband, encode, List.map_map, Function.comp_def]
+      simp [sbFrames, encode, List.map_map, Function.comp_def]
     simp only [List.flatMap_cons, List.flatten_append, ih, hw]
     simp [sbPackets, encode]
 
